@@ -141,7 +141,10 @@ Eval vm_compute in (length cases, length (filter (fun c => negb (ok c)) cases)).
     # the four outcomes end to end: bracketed, clamped low, clamped high (unmet, continued)
     cfgs = [cfg(), cfg(loads={"kind": "balanced", "scale": 200.0, "seed": 1}, design={"continue_if_design_unmet": True}),
             cfg(loads={"kind": "balanced", "scale": 3000000.0, "seed": 1}, design={"continue_if_design_unmet": True}),
-            cfg("RECTANGLE", "COAXIAL", loads={"kind": "cooling", "scale": 500.0, "seed": 3}, design={"continue_if_design_unmet": True})]
+            cfg("RECTANGLE", "COAXIAL", loads={"kind": "cooling", "scale": 500.0, "seed": 3}, design={"continue_if_design_unmet": True}),
+            # one-sided loads: every temperature stays on one side of the undisturbed ground temperature
+            cfg(months=12, loads={"kind": "constant", "scale": 24000.0, "seed": 1, "sign": 1.0}),
+            cfg(months=12, loads={"kind": "constant", "scale": 30000.0, "seed": 1, "sign": -1.0})]
     if not quick:
         cfgs += [cfg(g, p, months=12) for g in ("BIRECTANGLE", "BIZONEDRECTANGLE", "ROWWISE", "BIRECTANGLECONSTRAINED") for p in ("SINGLEUTUBE", "DOUBLEUTUBESERIES")]
     for r in e2e_runs(cfgs):
